@@ -57,7 +57,12 @@ def ser_cb(cb):
 def ser_call(c, endpoints, for_model):
     k = c[0]
     if k == "C":
-        host, port = endpoints[c[1]]
+        if c[1] == "unresolvable":
+            # a host name that cannot be resolved (not in the model: the scenario ends the comparison here, see skip_corr_from)
+            host, port = "no such host.invalid", 21
+            c = (c[0], 9, c[2])
+        else:
+            host, port = endpoints[c[1]]
         if for_model:
             port = 2100 + c[1]
             host = "peer%d" % c[1]
@@ -306,7 +311,7 @@ def run_scenarios(scenarios, exe, drv, workdir, tag, nworkers=None, env=None):
             pc = peerlib.PeerCase(scn["sessions"], scn["cfg"]["tlsver"])
             endpoints = {k: pc.endpoint(k) for k in range(len(scn["sessions"]))}
             t0 = time.time()
-            lines, status, destroyed = d.run_case(driver_line(scn, endpoints), len(scn["calls"]))
+            lines, status, destroyed = d.run_case(driver_line(scn, endpoints), len(scn["calls"]), timeout=scn.get("call_timeout"))
             pc.finish(0.5 if status == "ok" else 0.2)
             calls = [parse_call_line(l) for l in lines]
             if status == "blocked":
@@ -334,7 +339,7 @@ def run_scenarios(scenarios, exe, drv, workdir, tag, nworkers=None, env=None):
         pc = peerlib.PeerCase(scn["sessions"], scn["cfg"]["tlsver"])
         endpoints = {k: pc.endpoint(k) for k in range(len(scn["sessions"]))}
         t0 = time.time()
-        lines, status, destroyed = d.run_case(driver_line(scn, endpoints), len(scn["calls"]), timeout=15.0)
+        lines, status, destroyed = d.run_case(driver_line(scn, endpoints), len(scn["calls"]), timeout=max(15.0, scn.get("call_timeout") or 0))
         pc.finish(0.5)
         calls = [parse_call_line(l) for l in lines]
         if status == "blocked":
